@@ -242,6 +242,7 @@ class Stats:
     def __init__(self):
         self.queries = 0
         self.solver_s = 0.0
+        self.blocks = 0
         self.log = []
 
 
@@ -634,6 +635,7 @@ class SymExec:
                 continue
             b = self.fn.blocks[bname]
             path.trace.append(bname)
+            self.stats.blocks += 1
             for s in b.stmts:
                 if s.startswith("StorageLive") or s.startswith("StorageDead") or s.startswith("nop") or s.startswith("PlaceMention") \
                         or s.startswith("FakeRead") or s.startswith("Retag") or s.startswith("AscribeUserType") or s.startswith("Coverage"):
@@ -887,6 +889,7 @@ class MirJob:
         res = {
             "status": "FAIL" if bad else "PASS",
             "obligations": len(obs), "discharged": len(obs) - len(bad), "solver_s": round(stats.solver_s, 3),
+            "blocks_explored": stats.blocks, "solver_queries": stats.queries,
             "functions": funcs, "nontrivial": len(obs) > 0, "nontrivial_count": len(obs) - len(bad),
             "failed": [{"check": o["id"], "desc": o["detail"], "loc": o.get("where", "")} for o in bad],
             "wall_s": round(time.time() - t0, 2),
